@@ -33,6 +33,12 @@ Three streams through the real `trackpy.refine.least_squares`:
               fail are marked; fitted features within the mask radius of THEIR OWN start, signal /
               size / background positive; with default settings on these noise-free frames the
               centres are recovered to < 0.1 px.
+              X15 (also in the accuracy stream when nframes > 1): `prepare_subimages` is wrapped at run
+              time (arguments bound by name, passed through; the `reader` argument replaced by a
+              recording proxy): per call, the indices asked of the reader must equal the model's
+              `framesRead frame_nos groups` (op LSQFRAMES: one per cluster, the frame of its first
+              member), and the sequence of solver calls must follow the model's `plan` built from the
+              returned table's frame / cluster columns (correspondence-break, what="frames-read").
   * history : the result of a call is a function of its arguments: the reference call is made first,
               then 2-5 OTHER calls in the same process (options={'maxiter': 1}, tol, other
               fit_function / param_mode / bounds / constraints / param_val / max_iter, a call that
@@ -76,6 +82,10 @@ ASSUMPTIONS = [
     "float64 by the code; injected jumps keep it >= 1e-3 away from equality",
     "clusters (static.cluster) are taken from the code (C19's subject); index labels unique except "
     "in the 'dup' layout, which is judged by the direct oracle only",
+    "X15 frames-read tie: a prepare_subimages call that raises (cluster outside the image) must have read "
+    "a non-empty PREFIX of the model's frames; clusters that fail before their first round make no call, so "
+    "the recorded solver calls must be a SUBSEQUENCE of the model's plan (equal to it when every row was "
+    "fitted); frame numbers are integers",
     "at least one parameter is not constant (with an empty parameter vector scipy raises ValueError "
     "before any fit is attempted; like max_iter = 0 this is a degenerate configuration, not a failed fit)",
     "max_iter >= 1 (max_iter = 0 raises UnboundLocalError in the code and `unboundRmsDev` in the "
@@ -1105,8 +1115,9 @@ def run_accuracy(ctx, inp, res):
     res.stat("accuracy_%s_%dd_%s" % (fitfun, ndim, "dimer" if dimer else "single"))
     res.stat("accuracy_frames_%d" % nfr)
     res.stat("accuracy_pm_" + ("default" if pm is None else "+".join("%s=%s" % kv for kv in sorted(pm.items()))))
+    tap = FrameTap(ls)
     try:
-        with warnings.catch_warnings():
+        with warnings.catch_warnings(), tap:
             warnings.simplefilter("ignore")
             r = ls.refine_leastsq(f, reader, diameter, fit_function=fitfun, **kw)
     except Exception as e:
@@ -1127,6 +1138,9 @@ def run_accuracy(ctx, inp, res):
                       signature=dict(stream="accuracy", what="not-recovered", fit_function=fitfun,
                                      size_mode="free" if (pm or {}).get("size", "const") != "const"
                                      else "default"))
+    if nfr > 1:
+        # X15: the frames actually read per cluster / per solver call against Model/LeastsqFrames.lean
+        check_frames_read(ctx, res, tap, r, has_global_mode(pm), "accuracy")
     res.sample = dict(stream="accuracy", fitfun=fitfun, ndim=ndim, dimer=dimer, max_err=float(err.max()))
 
 # ------------------------------------------------------------------------------------------
@@ -1139,13 +1153,174 @@ class Frames:
         self.frames = list(frames)
         self.frame_shape = self.frames[0].shape
         self.reads = 0
+        self.read_seq = []          # the indices asked for, in order
 
     def __len__(self):
         return len(self.frames)
 
     def __getitem__(self, i):
         self.reads += 1
+        self.read_seq.append(int(i))
         return self.frames[int(i)]
+
+
+# ---- X15: WHICH FRAME every cluster is fitted against (Model/LeastsqFrames.lean, op LSQFRAMES) ----
+
+class ReadProxy:
+    """stands in for the `reader` argument of one prepare_subimages call (the dict of cached frames on
+    the global level, ReaderCached otherwise) and records the indices asked for"""
+
+    def __init__(self, inner, log):
+        self._inner, self._log = inner, log
+
+    def __getitem__(self, i):
+        try:
+            self._log.append(int(i))
+        except Exception:
+            self._log.append(repr(i))
+        return self._inner[i]
+
+    def __len__(self):
+        return len(self._inner)
+
+    def __getattr__(self, name):
+        return getattr(self._inner, name)
+
+
+class FrameTap:
+    """`with FrameTap(ls) as tap:` wraps `least_squares.prepare_subimages` (the name refine_leastsq
+    looks up at call time).  Signature-agnostic: the arguments are bound with the signature of the
+    function found there and passed through unchanged, except that the `reader` argument is replaced
+    by a recording proxy.  Every call is recorded as dict(groups, frame_nos, reads, key)."""
+
+    def __init__(self, ls):
+        self.ls, self.calls, self.unbound = ls, [], 0
+
+    def __enter__(self):
+        self.orig = self.ls.prepare_subimages
+        self.ls.prepare_subimages = self._wrapped
+        return self
+
+    def __exit__(self, *exc):
+        self.ls.prepare_subimages = self.orig
+        return False
+
+    def _wrapped(self, *a, **k):
+        import inspect
+        rec = dict(groups=None, frame_nos=None, reads=[], key=None, raised=False)
+        try:
+            ba = inspect.signature(self.orig).bind(*a, **k)
+            args = ba.arguments
+            if "groups" not in args or "frame_nos" not in args or "reader" not in args:
+                raise TypeError("unexpected signature")
+            g, fn = args["groups"], args["frame_nos"]
+            rec["groups"] = None if g is None else [[int(j) for j in cl] for cl in g[0]]
+            rec["frame_nos"] = [int(v) for v in fn]
+            rec["key"] = id(fn)          # one array per iteration of the outer loop (L850)
+            args["reader"] = ReadProxy(args["reader"], rec["reads"])
+            a, k = ba.args, ba.kwargs
+            self.calls.append(rec)
+        except Exception:
+            self.unbound += 1
+        try:
+            return self.orig(*a, **k)
+        except BaseException:
+            rec["raised"] = True      # e.g. RefineException "out of image bounds" at some cluster
+            raise
+
+
+def _frames_field(groups):
+    return "-" if groups is None else ";".join(",".join(str(j) for j in cl) for cl in groups)
+
+
+def _ints(tok):
+    return [int(x) for x in tok.split(",") if x != ""]
+
+
+def check_frames_read(ctx, res, tap, out, is_global, stream):
+    """the tie of X15: (1) per recorded prepare_subimages call, the indices read from the reader equal
+    the model's `framesRead frame_nos groups` (a non-empty prefix of it when the call raised); (2) the sequence of solver calls (recorded calls with the
+    same `frame_nos` array merged) is a subsequence of the model's `plan` built from the RETURNED table's
+    frame / cluster columns (a cluster that fails before its first round makes no call), the whole
+    plan when every row was fitted."""
+    sig = dict(stream=stream, what="frames-read")
+    if tap.unbound:
+        res.stat("frames_read_unbound_calls", tap.unbound)
+        res.violation("correspondence-break", "prepare_subimages was called with arguments that do not bind to "
+                      "(groups, frame_nos, reader): the frames read cannot be observed", broken="framesRead",
+                      signature=sig)
+        return
+    cache = {}
+    solver_calls = []            # [(first round aborted?, reads of the first round)]
+    last_key = object()
+    for rec in tap.calls:
+        q = "LSQFRAMES call | %s | %s" % (",".join(map(str, rec["frame_nos"])), _frames_field(rec["groups"]))
+        if q not in cache:
+            cache[q] = common.kv(ctx.ask(q))
+        m = cache[q]
+        if "read" not in m:
+            res.violation("harness-error", "driver answered %r to %r" % (m, q))
+            return
+        want = _ints(m["read"])
+        res.stat("frames_read_calls")
+        if rec["groups"] is not None and len(set(want)) > 1:
+            res.stat("frames_read_calls_spanning_frames")
+        if m.get("cwf") != "1":
+            res.violation("correspondence-break", "a cluster handed to prepare_subimages spans several frames or is "
+                          "empty: frame_nos %r groups %r" % (rec["frame_nos"], rec["groups"]),
+                          impl=dict(frame_nos=rec["frame_nos"], groups=rec["groups"]), broken="ClustersWithinFrames",
+                          signature=sig)
+            return
+        # a call that raised (a cluster outside the image) stops at that cluster: the frames read so far
+        # are the model's up to and including it
+        if rec["raised"]:
+            res.stat("frames_read_calls_aborted")
+        if (rec["reads"] != want[:len(rec["reads"])] or not rec["reads"]) if rec["raised"] else rec["reads"] != want:
+            res.violation("correspondence-break",
+                          "prepare_subimages(frame_nos=%r, groups=%r) read the frames %r, the model reads %r "
+                          "(one per cluster: the frame of its first member)"
+                          % (rec["frame_nos"], rec["groups"], rec["reads"], want),
+                          impl=dict(reads=rec["reads"]), model=dict(reads=want), broken="framesRead / "
+                          "framesRead_own_frame", signature=sig)
+            return
+        if rec["key"] != last_key:
+            solver_calls.append((rec["raised"], rec["reads"]))
+            last_key = rec["key"]
+    if out is None or "cluster" not in out.columns or "frame" not in out.columns:
+        return
+    rows = [int(v) for v in out["frame"].values]
+    cl = out["cluster"].values
+    clusters = [[int(j) for j in np.nonzero(cl == c)[0]] for c in sorted(set(cl.tolist()))]
+    m = common.kv(ctx.ask("LSQFRAMES plan %s | %s | %s" % ("g" if is_global else "c", ",".join(map(str, rows)),
+                                                          _frames_field(clusters))))
+    if "read" not in m:
+        res.violation("harness-error", "driver answered %r (plan)" % (m,))
+        return
+    plan = [_ints(t) for t in m["read"].split(";")] if m["read"] != "" else []
+    pairs = dict((int(a), int(b)) for a, b in (t.split(":") for t in m.get("pairs", "").split(",") if t))
+    res.stat("frames_read_plan_global" if is_global else "frames_read_plan_per_cluster")
+    # the theorem's conclusion, evaluated: every row once, with its own frame
+    if m.get("cwf") != "1" or pairs != dict(enumerate(rows)):
+        res.violation("correspondence-break", "the returned table's clusters are not within frames / do not "
+                      "partition the rows: frames %r clusters %r" % (rows, clusters), broken="ClustersWithinFrames",
+                      signature=sig)
+        return
+    seen = [r for _, r in solver_calls]
+    it = iter(plan)
+    ok = all(any((r == p[:len(r)]) if ab else (r == p) for p in it) for ab, r in solver_calls)
+    all_fitted = bool(np.isfinite(out["cost"].values.astype(float)).all()) if "cost" in out.columns else False
+    if ok and all_fitted and len(out):
+        ok = seen == plan
+    if not ok:
+        res.violation("correspondence-break",
+                      "frames read per solver call %r do not follow the model's plan %r (%s level, frames %r, "
+                      "clusters %r)" % (seen, plan, "global" if is_global else "cluster", rows, clusters),
+                      impl=dict(reads=seen), model=dict(plan=plan), broken="plan / plan_covers_rows_with_own_frame",
+                      signature=sig)
+
+
+def has_global_mode(pm):
+    return any(v in ("global", 2) for v in (pm or {}).values())
 
 
 def scene_extra(fitfun):
@@ -1455,11 +1630,15 @@ def run_frames(ctx, inp, res):
     if fr and max(fr) + 1 != len(set(fr)):
         res.stat("frames_sparse_frame_numbers")
     sig = dict(stream="frames")
-    out, exc = call_refine(res, ls, reader, pristine, t, kw, sig)
+    with FrameTap(ls) as tap:
+        out, exc = call_refine(res, ls, reader, pristine, t, kw, sig)
     if res.viol:
         return
     info = judge_by_label(res, ls, scene, call, t, out, exc, sig)
-    if info is None:
+    # X15: the frames actually read per cluster / per solver call against Model/LeastsqFrames.lean
+    # (after the direct oracle, and also when it has failed: both verdicts are recorded)
+    check_frames_read(ctx, res, tap, out if exc is None else None, has_global_mode(call.get("param_mode")), "frames")
+    if info is None or res.viol:
         return
     res.stat("frames_clusters_fitted", info["nfit"])
     res.stat("frames_clusters_failed", info["nfail"])
